@@ -847,11 +847,22 @@ impl<'a> Sess<'a> {
                             && b[0] & 0x20 != 0
                     });
                 }
-                Cb::Broadcast(_, _) => {
+                Cb::Broadcast(function, action) => {
                     if let Some(mode) = self.sent_broadcasts.pop_front() {
                         self.broadcast_pending = Some(mode);
                         self.broadcast_uncertain = false;
                         self.broadcast_reported = false;
+                    }
+                    if function == "DisableUnsolicited" && action == "Processed" {
+                        // DISABLE_UNSOLICITED stops unsolicited reporting however it is addressed. A broadcast has no
+                        // reply, so its effect is placed where the outstation reports having processed it: from here on
+                        // nothing is enabled and a series that was awaiting its confirmation is over (exactly what the
+                        // addressed request does, start-up responses included); a later retransmission of that series is
+                        // judged as a new unsolicited response
+                        label(&mut self.f, "broadcast_disable");
+                        self.enabled = 0;
+                        self.pending_enable.retain(|x| !x.1);
+                        self.disable_answered();
                     }
                 }
                 Cb::BeginConfirm => {
@@ -1257,17 +1268,21 @@ impl<'a> Sess<'a> {
             Op::Broadcast(mode, k) => {
                 let seq = self.next_seq();
                 let dst = 0xFFFDu16 + (*mode % 3) as u16; // FFFD = no confirm, FFFE = mandatory, FFFF = optional
-                let f = match k % 3 {
+                let f = match k % 4 {
                     0 => Fragment::request(seq, func::WRITE, ra::h_count8(50, 1, 1, &ra::u48(777))),
                     1 => Fragment::request(seq, func::RECORD_CURRENT_TIME, vec![]),
-                    _ => Fragment::request(seq, func::IMMED_FREEZE_NR, ra::h_all(20, 0)),
+                    2 => Fragment::request(seq, func::IMMED_FREEZE_NR, ra::h_all(20, 0)),
+                    // DISABLE_UNSOLICITED for all classes, by broadcast: no reply, takes effect when processed
+                    _ => enable_unsol(seq, false, &[1, 2, 3]),
                 };
+                let disables = k % 4 == 3;
                 // a broadcast is a new request for the solicited confirm wait as well
                 self.note_request_sent(f.func);
                 let b = self.rig.frame_fragment(MASTER_ADDR, dst, &f.encode());
                 self.rig.send_raw(&b);
                 self.sent_broadcasts.push_back(*mode % 3);
                 label(&mut self.f, "broadcast");
+                let _ = disables;
                 self.settle_and_process(None).await;
             }
             Op::WriteRestart(v) => {
